@@ -50,8 +50,9 @@ func checkC05(c *chk.Ctx) {
 	ruleR05h(h)
 }
 
-func ruleR05a(h *H) {
-	const rule = "R05a"
+func ruleR05a(h *H) { ruleR05aInto(h, "R05a") }
+
+func ruleR05aInto(h *H, rule string) {
 	h.Rule(rule, "K1+K3", "ShardMetadata.Term is incremented only by the election function, and every path from the increment to a call that sends NewTerm passes through StatusResource.UpdateShardMetadata with the updated metadata", 2)
 	ws := h.P.FieldWrites("coordinator/model", "ShardMetadata", "Term")
 	if len(ws) == 0 {
